@@ -858,6 +858,39 @@ func (env *SpecEnv) call(x SCall) SpecVal {
 		v := argv(0)
 		registerHeapKey("BigVal", ArraySort(SInt, SInt))
 		return SpecVal{T: Select(fx.Heap(env.state(), "BigVal"), v.T)}
+	case "samefields":
+		// samefields(a, b, F1, F2, ...): the structs a and b point to agree on EVERY field of their
+		// type except the listed ones. The field list comes from the Go type, so a field added to
+		// the struct later is covered without touching the contract.
+		a, b := argv(0), argv(1)
+		at, ok1 := derefType(a.Ty)
+		bt, ok2 := derefType(b.Ty)
+		if !ok1 || !ok2 || !isStruct(at) || !types.Identical(at, bt) {
+			specFail("samefields needs two pointers to the same struct type, got %v and %v", a.Ty, b.Ty)
+		}
+		except := map[string]bool{}
+		for _, e := range x.Args[2:] {
+			id, ok := e.(SIdent)
+			if !ok {
+				specFail("samefields: field names expected after the two objects")
+			}
+			except[id.Name] = true
+		}
+		si := fx.tc.StructOf(at)
+		var cs []Term
+		for _, f := range si.Fields {
+			if except[f.Name] {
+				delete(except, f.Name)
+				continue
+			}
+			pa := &Ptr{Kind: PHeap, Ref: a.T, ObjT: at, T: f.Type, Path: []Sel{{SI: si, Field: f}}}
+			pb := &Ptr{Kind: PHeap, Ref: b.T, ObjT: at, T: f.Type, Path: []Sel{{SI: si, Field: f}}}
+			cs = append(cs, Eq(env.load(pa), env.load(pb)))
+		}
+		for n := range except {
+			specFail("samefields: %v has no field %s", at, n)
+		}
+		return SpecVal{T: And(cs...)}
 	case "alloc":
 		// alloc(x): x refers to an object that exists in the current state (below the allocation frontier)
 		v := argv(0)
